@@ -18,6 +18,7 @@ LIB = os.path.join(REPO, 'CPP', 'Clipper2Lib')
 BUILD = os.environ.get('VERIF_BUILD', os.path.join(VERIF, 'build'))
 REPLAYDIR = os.environ.get('VERIF_REPLAY', os.path.join(VERIF, 'replay'))
 EVIDENCEDIR = os.environ.get('VERIF_EVIDENCE', os.path.join(VERIF, 'evidence'))
+PARTIAL_RUN = False
 GUARD = 'ANGUSJOHNSON_CLIPPER2_VERIF'
 MEM_LIMIT = 24 << 30
 
@@ -638,7 +639,10 @@ def main():
     i = 1
     while i < len(args):
         if args[i] == '--tier': tier = args[i + 1]; i += 2
-        elif args[i] == '--only': only = args[i + 1]; i += 2
+        elif args[i] == '--only':
+            only = args[i + 1]; i += 2
+            global PARTIAL_RUN
+            PARTIAL_RUN = True
         elif args[i] == '--jobs': jobs = int(args[i + 1]); i += 2
         elif args[i] == '--replay': return do_replay(pid, args[i + 1])
         else: i += 1
@@ -732,6 +736,8 @@ def main():
 
 def write_evidence(pid, tier, seed, mod, recs, violations, knowns, ub_notes, errors, wall, infos=(), st=(), hd=()):
     os.makedirs(EVIDENCEDIR, exist_ok=True)
+    evdir = EVIDENCEDIR if not PARTIAL_RUN else os.path.join(BUILD, 'evidence-partial')   # --only runs never overwrite the real evidence
+    os.makedirs(evdir, exist_ok=True)
     meta = getattr(mod, 'META', {})
     conclusive = [r for r in recs if r['verdict'] in ('SUCCESS', 'FAILURE') and r['witness']['reached']]
     samples = [dict(obligation=r['name'], harness=r['harness'], tu=r['tu'], bound=r['bound'], what=r['desc'], unwind=r['unwind'],
@@ -763,7 +769,7 @@ def write_evidence(pid, tier, seed, mod, recs, violations, knowns, ub_notes, err
                   'stubs: std::__throw_length_error/bad_alloc/bad_array_new_length are assert(0) (reaching them is reported), ios_base::Init empty, operator new never fails (--no-malloc-may-fail)',
                   'trusted: clang-14 front end, opt-14 passes, ir2c translator (differentially self-tested each run), CBMC semantics of C'],
               wall_s=round(wall, 2), violations=len(violations))
-    with open(os.path.join(EVIDENCEDIR, pid + '.json'), 'w') as f:
+    with open(os.path.join(evdir, pid + '.json'), 'w') as f:
         json.dump(ev, f, indent=1)
 
 if __name__ == '__main__':
